@@ -14,7 +14,7 @@
     (check.Check + the Report literal of scanWorker): an opaque function of the job.
     Not modelled: the [ctx.Done()] branch of scanWorker (cancellation drops jobs by design; lint/ci never cancel),
     the metrics, and time.  Executable/inductive definitions only; proofs are in Proofs/C11_lts.v. *)
-From Coq Require Import List Arith Bool String.
+From Coq Require Import List Arith Bool.
 Import ListNotations.
 
 Section ScanLTS.
@@ -90,27 +90,6 @@ Section ScanLTS.
     list_sum (map mw (workers s)) + length (results s) +
     b2n (jobs_closed s) + b2n (results_closed s) + b2n (done s).
 End ScanLTS.
-
-(** The concurrency skeleton of cmd/pint/scan.go this transition system was written from, in the notation of
-    translator/ext_C11.go (channels renamed by role: ch1 = jobs, ch2 = results; only channel operations, go/defer,
-    WaitGroup calls, the calls scanWorker/Report and the control structure around them are kept).  The translator
-    re-extracts it from the current source on every run; Properties/C11.v compares.
-      make ch1, make ch2                       buffers [jobs], [results] (capacity checked positive by the translator)
-      loop{ wg.Add(1); go{ defer wg.Done(); scanWorker(_,ch1,ch2) } }      the [workers] list; wg.Done = [s_exit]
-      go{ defer close ch2; wg.Wait() }                                      [s_close_results]
-      go{ loop{ switch{ .. case{ loop{ send ch1 } } } }; defer close ch1 }  [s_produce]*, then [s_close_jobs]
-      range ch2{ Report(received) }                                         [s_recv]*, [s_end]
-      scanWorker: range ch1{ select{ case recv ctx.Done(){ return } default{ loop{ send ch2 } } } }
-                                                [s_take], [s_send]*, [s_finish]; loop exit = [s_exit]; the
-                                                ctx.Done() branch is the cancellation path left out of the model *)
-Definition expected_check_rules_skeleton : list string :=
-  ["make ch1"; "make ch2"; "loop{ wg.Add(1) ; go{ defer{ wg.Done() } ; call scanWorker(_,ch1,ch2) } }";
-   "go{ defer{ close ch2 } ; wg.Wait() }";
-   "go{ loop{ switch{ case{ continue } case{ continue } case{ loop{ send ch1 } } } } ; defer{ close ch1 } }";
-   "range ch2{ call Report(received) }"; "return"]%string.
-Definition expected_scan_worker_skeleton : list string :=
-  ["range ch1{ select{ case recv ctx.Done(){ return } default{ loop{ send ch2 } } } }"]%string.
-Definition expected_scan_worker_channels : list string := ["ch1:recv-only"; "ch2:send-only"]%string.
 
 Arguments WIdle {A}.
 Arguments WBusy {A} _.
